@@ -19,6 +19,7 @@
 From Coq Require Import Arith.
 From PB Require Import Common Tables FdlTables Telegram Phy TokenRing Params Fdl FdlProofs FdlStepProofs C01Proofs C15Proofs C13Proofs.
 From PB Require Import Rotation RotationBound.
+From PB Require Import FdlOracleSound2 C15Liveness.
 
 (* ------------------------------------------------------------------------------------------ *)
 (* the extraction                                                                              *)
@@ -488,6 +489,193 @@ Qed.
 
 End Inv.
 
+(* ------------------------------------------------------------------------------------------ *)
+(* the previous token time of a visit is the token time of the visit before it                  *)
+
+(* a visit ends by passing the token only through do_use_token, which has made last_token_time the token
+   time of the visit *)
+Lemma visit_pass_ltt f now pin (apps : list A) f' o apps' calls tk :
+  poll ops f now pin apps = Ok (f', o, apps', calls) -> tk_of (f_state f) = Some tk -> tk <> now ->
+  (pass_kind (kind_of (f_state f')) = true \/ f_state f' = UseToken now None false) ->
+  f_last_token_time f' = tk.
+Proof.
+  intros H Htk Hne Hpass.
+  assert (Hin : in_visit (kind_of (f_state f)) = true) by (destruct (f_state f); try discriminate Htk; reflexivity).
+  assert (Hnot : forall s', tk_of s' = Some tk -> ~ (pass_kind (kind_of s') = true \/ s' = UseToken now None false)).
+  { intros s' E [C|C]; [destruct s'; try discriminate E; discriminate C|subst s'; cbn in E; congruence]. }
+  apply poll_calls_cases in H.
+  destruct H as [(_ & _ & _ & [R|(Kf & s3 & Hpro & Hqs & Hvis)])|(f3 & w3 & w' & Kf3 & Hs3 & _ & _ & _ & _ & [Hd|Hd])].
+  - destruct R as (Rs & _). rewrite Rs in Hpass. destruct Hpass as [C|C]; discriminate C.
+  - exfalso. assert (Es3 : s3 = f_state f) by (destruct Hpro as [E|(C & _)]; [exact E|rewrite C in Hin; discriminate Hin]).
+    subst s3. specialize (Hvis Hin). rewrite Hvis in Hpass. exact (Hnot _ Htk Hpass).
+  - assert (Hd' := Hd). unfold do_use_token, assert_entry in Hd'.
+    destruct (f_state f3) as [ | | | |tk3 fa fcd| | | | | ] eqn:Es3; cbn [kind_of do_fn_entry state_kind_eqb bind] in Hd'; try discriminate Hd'.
+    clear Hd'. rewrite <- Hs3 in Htk. cbn in Htk. injection Htk as <-.
+    destruct (use_deadline _ _ _ _ _ _ _ _ Hd Es3) as [(D1 & _ & D3)|(_ & D1 & _)]; congruence.
+  - apply do_await_data_response_split in Hd.
+    destruct Hd as (a & tk3 & fa & app & Es & _ & Hcases).
+    rewrite <- Hs3, Es in Htk. cbn in Htk. injection Htk as <-.
+    destruct Hcases as [(t' & app' & _ & _ & _ & _ & _ & Es')|[(_ & _ & Es')|[(_ & _ & Es')|(app' & f4 & w4 & _ & _ & _ & _ & Es4 & Hdo)]]].
+    + exfalso. rewrite Es' in Hpass. destruct Hpass as [C|C]; discriminate C.
+    + exfalso. rewrite Es' in Hpass. destruct Hpass as [C|C]; discriminate C.
+    + exfalso. rewrite Es', Es in Hpass. destruct Hpass as [C|C]; discriminate C.
+    + destruct (use_deadline _ _ _ _ _ _ _ _ Hdo Es4) as [(D1 & _ & D3)|(_ & D1 & _)]; congruence.
+Qed.
+
+(* latest first *)
+Fixpoint linked_rev (l : list svisit) : Prop :=
+  match l with
+  | v' :: ((v :: _) as tl) => (sv_release v <> None -> sv_prev v' = sv_arrival v \/ sv_prev v' = 0) /\ linked_rev tl
+  | _ => True
+  end.
+
+(* in order: a visit that follows a completed visit has that visit's token time as its previous token
+   time - or 0, when the station was re-created in between *)
+Fixpoint linked (l : list svisit) : Prop :=
+  match l with
+  | v :: ((v' :: _) as tl) => (sv_release v <> None -> sv_prev v' = sv_arrival v \/ sv_prev v' = 0) /\ linked tl
+  | _ => True
+  end.
+
+Lemma linked_snoc l : forall v v', linked (l ++ [v]) -> (sv_release v <> None -> sv_prev v' = sv_arrival v \/ sv_prev v' = 0) ->
+  linked ((l ++ [v]) ++ [v']).
+Proof.
+  induction l as [|x l IH]; intros v v' Hl Hv; [cbn; tauto|].
+  destruct l as [|y l]; [cbn in *; tauto|].
+  change (linked (x :: (y :: l ++ [v]) ++ [v'])). cbn [linked app] in Hl |- *. destruct Hl as (H1 & H2).
+  split; [exact H1|]. exact (IH v v' H2 Hv).
+Qed.
+
+Lemma linked_rev_rev l : linked_rev l -> linked (rev l).
+Proof.
+  induction l as [|v' l IH]; intros H; [exact I|]. destruct l as [|v l]; [exact I|].
+  cbn [linked_rev] in H. destruct H as (H1 & H2). specialize (IH H2).
+  change (rev (v' :: v :: l)) with ((rev l ++ [v]) ++ [v']). apply linked_snoc; [exact IH|exact H1].
+Qed.
+
+Lemma linked_rev_head v1 v d : sv_prev v1 = sv_prev v -> linked_rev (v :: d) -> linked_rev (v1 :: d).
+Proof. intros E H. destruct d as [|w d]; [exact I|]. cbn [linked_rev] in *. rewrite E. exact H. Qed.
+
+Definition x_list (s : xst) : list svisit := match x_open s with Some v => v :: x_done s | None => x_done s end.
+
+Definition LK (f : fdl) (s : xst) : Prop :=
+  linked_rev (x_list s) /\
+  (x_open s = None -> match x_done s with
+                      | v :: _ => sv_release v <> None -> f_last_token_time f = sv_arrival v \/ f_last_token_time f = 0
+                      | [] => True
+                      end).
+
+Lemma xcalls_frame : forall l s, x_open (fold_left xpost (map HCall l) s) = x_open s /\
+                                  x_done (fold_left xpost (map HCall l) s) = x_done s.
+Proof.
+  induction l as [|c l IH]; intros s; [split; reflexivity|]. cbn [map fold_left].
+  destruct (IH (xpost s (HCall c))) as (H1 & H2). rewrite H1, H2. destruct c; split; reflexivity.
+Qed.
+
+Lemma add_round_fields v now c e :
+  sv_prev (add_round v now c e) = sv_prev v /\ sv_arrival (add_round v now c e) = sv_arrival v /\
+  sv_release (add_round v now c e) = sv_release v.
+Proof. unfold add_round. destruct c; cbn; tauto. Qed.
+
+Section Link.
+Variable p : params.
+
+Lemma step_lk f apps e f' apps' h tl s :
+  InvX p f tl s -> LK f s -> step A ops f apps e = Ok (f', apps', h) -> tl < ev_time (tl + 1) e ->
+  LK f' (fold_left xpost h s).
+Proof.
+  intros (Hp & Htl & Hdone & Hcur & Hltt & Hopen) (Hlk & Hfact) H Hlt. destruct e as [now pin| | |g]; cbn [step ev_time] in *.
+  - destruct (poll ops f now pin apps) as [[[[f1 o1] a1] calls]| |] eqn:Ep; cbn [bind] in H; try discriminate H.
+    injection H as <- _ <-.
+    pose proof (poll_state_cases A ops _ _ _ _ _ _ _ _ Ep) as Hcases.
+    rewrite fold_left_app. destruct (xcalls_frame calls s) as (X1 & X2).
+    set (s1 := fold_left xpost (map HCall calls) s) in *.
+    cbn [fold_left xpost]. rewrite X1, X2. unfold x_list in Hlk.
+    destruct (x_open s) as [v|] eqn:Eo.
+    + destruct (tk_of (f_state f)) as [tk|] eqn:Etk; [|contradiction].
+      destruct Hopen as (Ha & (S1 & S2 & _) & _).
+      set (v1 := add_round v now (x_cur s1) (f_end_tht f1)).
+      destruct (add_round_fields v now (x_cur s1) (f_end_tht f1)) as (A1 & A2 & A3). fold v1 in A1, A2, A3.
+      assert (Hne : tk <> now) by lia.
+      (* the state after the poll is one of those of visit_step, or unchanged / reset *)
+      unfold LK, x_list. destruct (tk_of (f_state f1)) as [tk1|] eqn:Etk1.
+      * destruct (Z.eqb_spec tk1 (sv_arrival v)) as [Eq|Ne]; cbn [x_open x_done].
+        -- split; [exact (linked_rev_head _ _ _ A1 Hlk)|discriminate].
+        -- split; [|discriminate].
+           assert (Es1 : f_state f1 = UseToken now None false).
+           { destruct Hcases as [(_ & _ & [R|(_ & s3 & Hpro & Hqs & Hvis)])|(tk0 & Hfrom & Hto & _)].
+             - destruct R as (Rs & _). rewrite Rs in Etk1. discriminate Etk1.
+             - exfalso. assert (Hin : in_visit (kind_of (f_state f)) = true) by (destruct (f_state f); try discriminate Etk; reflexivity).
+               assert (Es3 : s3 = f_state f) by (destruct Hpro as [E|(C & _)]; [exact E|rewrite C in Hin; discriminate Hin]).
+               subst s3. rewrite (Hvis Hin), Etk in Etk1. congruence.
+             - assert (tk0 = tk) by (destruct Hfrom as [(fa & fcd & Es)|(a & fa & Es)]; rewrite Es in Etk; cbn in Etk; congruence). subst tk0.
+               destruct Hto as [(E1 & _)|[(E1 & _)|[(fa' & E1)|[(a' & fa' & E1)|E1]]]].
+               + rewrite E1, Etk in Etk1. congruence.
+               + rewrite E1 in Etk1. discriminate Etk1.
+               + rewrite E1 in Etk1. cbn in Etk1. congruence.
+               + rewrite E1 in Etk1. cbn in Etk1. congruence.
+               + destruct E1 as [E1|E1]; [|exact E1]. destruct (f_state f1); try discriminate E1; discriminate Etk1. }
+           cbn [linked_rev]. split.
+           ++ intros _. left. unfold fresh. cbn [sv_prev close sv_arrival]. rewrite A2, Ha.
+              eapply visit_pass_ltt; [exact Ep|exact Etk|exact Hne|right; exact Es1].
+           ++ apply (linked_rev_head (close v1 (Some now)) v); [cbn; exact A1|exact Hlk].
+      * cbn [x_open x_done]. split; [apply (linked_rev_head (close v1 _) v); [cbn; exact A1|exact Hlk]|].
+        intros _. cbn [close sv_release sv_arrival]. intros Hrel. left. rewrite A2, Ha.
+        destruct (pass_kind (kind_of (f_state f1))) eqn:Epk; [|contradiction Hrel; reflexivity].
+        eapply visit_pass_ltt; [exact Ep|exact Etk|exact Hne|left; exact Epk].
+    + destruct (tk_of (f_state f)) as [tk|] eqn:Etk; [contradiction|].
+      assert (Hl1 : f_last_token_time f1 = f_last_token_time f \/ f_last_token_time f1 = 0).
+      { destruct Hcases as [(_ & _ & [R|(Kf & _)])|(tk0 & Hfrom & _)].
+        - right. apply R.
+        - left. apply Kf.
+        - exfalso. destruct Hfrom as [(fa & fcd & Es)|(a & fa & Es)]; rewrite Es in Etk; discriminate Etk. }
+      specialize (Hfact eq_refl).
+      unfold LK, x_list. destruct (tk_of (f_state f1)) as [tk1|] eqn:Etk1; cbn [x_open x_done].
+      * split; [|discriminate]. destruct (x_done s) as [|v d] eqn:Ed; [exact I|]. cbn [linked_rev]. split; [|exact Hlk].
+        intros Hrel. unfold fresh. cbn [sv_prev]. destruct (Hfact Hrel) as [E|E]; destruct Hl1 as [E1|E1]; [left|right|right|right]; congruence.
+      * split; [exact Hlk|]. intros _. destruct (x_done s) as [|v d]; [exact I|].
+        intros Hrel. destruct (Hfact Hrel) as [E|E]; destruct Hl1 as [E1|E1]; [left|right|right|right]; congruence.
+  - unfold set_online, set_state in H. cbn [bind] in H. injection H as <- _ <-. cbn [fold_left]. split; [exact Hlk|exact Hfact].
+  - unfold set_offline, set_state in H. destruct (fdl_new (f_p f)) as [f1| |] eqn:En; cbn [bind] in H; try discriminate H.
+    injection H as <- _ <-. apply fdl_new_spec in En. destruct En as ((Rs & _ & _ & Rl & _) & Rp).
+    cbn [fold_left xpost]. unfold LK, x_list in *. cbn [x_open x_done].
+    destruct (x_open s) as [v|].
+    + split; [apply (linked_rev_head (close v None) v); [reflexivity|exact Hlk]|]. intros _ C. contradiction C. reflexivity.
+    + split; [exact Hlk|]. intros _. destruct (x_done s) as [|v d]; [exact I|]. intros _. right. exact Rl.
+  - injection H as <- _ <-. cbn [fold_left]. split; [exact Hlk|exact Hfact].
+Qed.
+
+Lemma run_lk (Hslot : 0 <= p_slot_bits p) : forall evs f apps tl s f' apps' h,
+  InvX p f tl s -> LK f s -> mono tl evs -> run A ops f apps evs = Ok (f', apps', h) ->
+  LK f' (fold_left xpost h s).
+Proof.
+  induction evs as [|e r IH]; intros f apps tl s f' apps' h HI HL Hm H; cbn [run] in H.
+  - injection H as <- _ <-. exact HL.
+  - destruct (step A ops f apps e) as [[[f1 apps1] h1]| |] eqn:Es; cbn [bind] in H; try discriminate H.
+    destruct (run A ops f1 apps1 r) as [[[f2 apps2] h2]| |] eqn:Er; cbn [bind] in H; try discriminate H.
+    injection H as <- _ <-. rewrite fold_left_app.
+    assert (Hlt : tl < ev_time (tl + 1) e) by (destruct e; cbn in *; [tauto|lia|lia|lia]).
+    pose proof (step_x p Hslot _ _ _ _ _ _ _ _ HI Es Hlt) as HI1.
+    pose proof (step_lk _ _ _ _ _ _ _ _ HI HL Es Hlt) as HL1.
+    assert (Hm1 : mono (ev_time tl e) r) by (destruct e; cbn in *; tauto).
+    exact (IH _ _ _ _ _ _ _ HI1 HL1 Hm1 Er).
+Qed.
+
+End Link.
+
+(* C13_visits_linked *)
+Theorem visits_linked p f0 (apps : list A) evs f apps' h :
+  0 <= p_slot_bits p -> fdl_new p = Ok f0 -> mono 0 evs -> run A ops f0 apps evs = Ok (f, apps', h) ->
+  linked (visits_of h).
+Proof.
+  intros Hs Hn Hm Hr. apply fdl_new_spec in Hn. destruct Hn as ((Rs & _ & _ & Rl & _) & Rp).
+  assert (HI : InvX p f0 0 x_init).
+  { split; [exact Rp|]. split; [lia|]. split; [constructor|]. split; [reflexivity|]. split; [lia|]. cbn. rewrite Rs. exact I. }
+  assert (HL : LK f0 x_init) by (split; [exact I|intros _; exact I]).
+  pose proof (run_lk p Hs _ _ _ _ _ _ _ _ HI HL Hm Hr) as (HL' & _).
+  unfold visits_of, x_all. apply linked_rev_rev. exact HL'.
+Qed.
+
 (* C13_station_visits_ok *)
 Theorem station_visits_ok p f0 (apps : list A) evs f apps' h :
   0 <= p_slot_bits p -> fdl_new p = Ok f0 -> mono 0 evs -> run A ops f0 apps evs = Ok (f, apps', h) ->
@@ -501,3 +689,156 @@ Proof.
 Qed.
 
 End Apps.
+
+(* ------------------------------------------------------------------------------------------ *)
+(* N model stations: the rotation bound with ring hypotheses only                               *)
+
+(* h is the history of a newly created model station with parameters p, run with some applications under some
+   sequence of events with strictly increasing poll times *)
+Definition station_history (p : params) (h : list hitem) : Prop :=
+  exists (A : Type) (ops : app_ops A) (f0 : fdl) (apps : list A) (evs : list (event A)) (f : fdl) (apps' : list A),
+    fdl_new p = Ok f0 /\ mono 0 evs /\ run A ops f0 apps evs = Ok (f, apps', h).
+
+Lemma linked_adjacent : forall l k a b, linked l -> nth_error l k = Some a -> nth_error l (S k) = Some b ->
+  sv_release a <> None -> sv_prev b = sv_arrival a \/ sv_prev b = 0.
+Proof.
+  induction l as [|x l IH]; intros k a b Hl Ha Hb; [destruct k; discriminate Ha|].
+  destruct l as [|y l]; [destruct k as [|[|k]]; discriminate Hb|].
+  cbn [linked] in Hl. destruct Hl as (H1 & H2). destruct k as [|k].
+  - cbn in Ha, Hb. injection Ha as <-. injection Hb as <-. exact H1.
+  - exact (IH k a b H2 Ha Hb).
+Qed.
+
+Section Ring.
+Variable N : nat.
+Variable P : nat -> params.                 (* parameters of station i *)
+Variable H : nat -> list hitem.             (* history of station i *)
+Variable st : nat -> nat.                   (* the station of the v-th token visit of the ring ... *)
+Variable ix : nat -> nat.                   (* ... and which of that station's visits it is *)
+Variable SV : nat -> svisit.
+Variables TTR C O : Z.
+
+(* the stations are model stations *)
+Hypothesis Hstations : forall i, station_history (P i) (H i) /\ 0 <= p_slot_bits (P i) /\ token_rotation_time (P i) <= TTR.
+(* RING hypotheses.  Order: the v-th visit of the ring is visit ix v of station st v, completed by passing
+   the token; N visits later it is the same station's next visit; no station is re-created. *)
+Hypothesis Hvisit : forall v, nth_error (visits_of (H (st v))) (ix v) = Some (SV v) /\ sv_release (SV v) <> None.
+Hypothesis Horder : forall v, st (v + N) = st v /\ ix (v + N) = S (ix v).
+Hypothesis Hnoreset : forall v, (N <= v)%nat -> sv_prev (SV v) <> 0.
+(* Medium and schedule: the token released by one visit arrives as the next visit within O; a message cycle
+   (and the decision to pass when nobody sends) takes at most C *)
+Definition ring_visit (v : nat) : visit := to_visit (SV v) (sv_arrival (SV (S v))).
+Hypothesis Htiming : forall v, timing_ok C O (ring_visit v).
+
+Lemma ring_visit_ok v : visit_ok TTR C O (ring_visit v).
+Proof.
+  destruct (Hstations (st v)) as ((A & ops & f0 & apps & evs & f & apps' & Hn & Hm & Hr) & Hs & Ht).
+  destruct (Hvisit v) as (Hnth & _).
+  pose proof (station_visits_ok A ops _ _ _ _ _ _ _ Hs Hn Hm Hr) as Hall.
+  rewrite Forall_forall in Hall. specialize (Hall _ (nth_error_In _ _ Hnth)).
+  destruct (sv_ok_hold _ _ (sv_arrival (SV (S v))) Hall) as (Hh & Hd).
+  split; [exact Hh|]. split; [|exact (Htiming v)]. unfold deadline_ok, ring_visit in *. lia.
+Qed.
+
+Lemma ring_is_run : ring_run N ring_visit.
+Proof.
+  split.
+  - intros v. reflexivity.
+  - intros v Hv. unfold ring_visit, to_visit. cbn [vi_prev vi_arrival].
+    replace v with ((v - N) + N)%nat at 1 by lia.
+    destruct (Horder (v - N)%nat) as (Hst & Hix).
+    destruct (Hvisit (v - N)%nat) as (Ha & Hra). destruct (Hvisit ((v - N) + N)%nat) as (Hb & _).
+    rewrite Hst, Hix in Hb.
+    destruct (Hstations (st (v - N)%nat)) as ((A & ops & f0 & apps & evs & f & apps' & Hn & Hm & Hr) & Hs & _).
+    pose proof (visits_linked A ops _ _ _ _ _ _ _ Hs Hn Hm Hr) as Hl.
+    destruct (linked_adjacent _ _ _ _ Hl Ha Hb Hra) as [E|E]; [exact E|].
+    exfalso. apply (Hnoreset ((v - N) + N)%nat); [lia|exact E].
+Qed.
+
+(* C13_rotation_bound_stations *)
+Theorem rotation_bound_stations : (1 <= N)%nat -> 0 <= TTR -> 0 <= C -> 0 <= O ->
+  forall v, (N <= v)%nat ->
+  sv_arrival (SV (v + N)%nat) - sv_arrival (SV v) <= TTR + Z.of_nat N * (C + O).
+Proof.
+  intros HN HT HC HO v Hv.
+  exact (rotation_bound_conditional N ring_visit TTR C O HN ring_is_run ring_visit_ok HT HC HO v Hv).
+Qed.
+
+End Ring.
+
+(* ------------------------------------------------------------------------------------------ *)
+(* The explicit core of the message-cycle bound C (one step, all states): a request that expects a reply
+   sets last_bus_activity to the time of its poll + 11 bit times per byte of the request
+   (use_poll_into_adr / adr_poll in C15Liveness.v); from then on, on a silent bus - PHY not busy, nothing
+   complete in the receive buffer, every buffered byte counted - the FIRST poll later than
+   last_bus_activity + Tslot delivers the time-out, which ends the message cycle.  So with polls at most
+   delta apart a cycle without reply takes at most  11 bit * |request| + Tslot + delta  from the poll that
+   sent the request.  (What C additionally has to cover in a ring - a reply and its reception, the
+   synchronisation pause before the next transmission - and the hand-over O are NOT derived here: they
+   depend on the other stations and the medium.) *)
+Section Cycle.
+Variable A : Type.
+Variable ops : app_ops A.
+
+Theorem reply_wait_expires f now rxb (apps : list A) f' o apps' calls a tk fa l :
+  poll ops f now (mkPhyIn false rxb) apps = Ok (f', o, apps', calls) ->
+  f_state f = AwaitDataResponse a tk fa -> f_conn f = ConnOnline -> f_lba f = Some l ->
+  f_pending f = length rxb -> decode rxb = Ok NeedMore -> 0 <= p_slot_bits (f_p f) ->
+  l + slot_time (f_p f) < now ->
+  exists cl, calls = CallHandleTimeout (f_next_app f) a :: cl.
+Proof.
+  intros E Es Ec El Hpd Hdec Hs Hexp.
+  assert (Hslot : 0 <= slot_time (f_p f)) by (unfold slot_time, p_bits_to_time; apply btt_nonneg; exact Hs).
+  destruct (adr_poll A ops _ _ _ _ _ _ _ _ _ _ _ _ _ E Es Ec El ltac:(lia)) as [([C|C] & _)|(_ & Hl & Hcase)]; [discriminate C|lia|].
+  cbv zeta in Hcase. rewrite Hpd, Nat.ltb_irrefl in Hcase.
+  destruct Hcase as [(_ & _ & _ & _ & _ & Hne & _)|[(_ & t & k & Hd)|(Hc & _)]]; [contradiction|congruence|exact Hc].
+Qed.
+
+(* the request poll: where the wait starts *)
+Theorem request_starts_wait f now busy rxb (apps : list A) f' o apps' calls :
+  poll ops f now (mkPhyIn busy rxb) apps = Ok (f', o, apps', calls) ->
+  kind_of (f_state f) = KUseToken -> f_conn f = ConnOnline -> (f_pending f <= length rxb)%nat ->
+  kind_of (f_state f') = KAwaitDataResponse ->
+  exists wire, tx o = Some wire /\ f_lba f' = Some (now + dur (f_p f) (length wire)) /\
+               f_pending f' = length (rx_left o).
+Proof. exact (use_poll_into_adr A ops f now busy rxb apps f' o apps' calls). Qed.
+
+End Cycle.
+
+(* ------------------------------------------------------------------------------------------ *)
+(* Non-vacuity: a newly created station alone on the bus (HSA 4), polled every 3 ms, with the demo application
+   of C15Proofs (one SRD request to station 5, then declines): it claims the token, scans its GAP, and then
+   visits itself; the first visit asks twice (the request, and - after the time-out - the decline that ends
+   the visit), the following visits once. *)
+Definition demo4_params : params :=
+  mkParams 2 default_baudrate default_slot_bits default_token_rotation_bits default_gap_wait_rotations 4
+           default_max_retry_limit default_min_tsdr_bits None.
+Definition demo4_events : list (event nat) :=
+  EvOnline nat :: map (fun k => EvPoll nat (1 + Z.of_nat k * 3000) (mkPhyIn false [])) (seq 0 45).
+
+Lemma demo4_visits : exists f0 f apps h,
+  fdl_new demo4_params = Ok f0 /\ mono 0 demo4_events /\
+  run nat demo_ops f0 [0%nat] demo4_events = Ok (f, apps, h) /\
+  firstn 2 (visits_of h) =
+    [mkSv 0 99001 1689375 [(105001, false); (117001, false)] (Some 117001);
+     mkSv 99001 117001 1788376 [(123001, false)] (Some 123001)] /\
+  firstn 3 (calls_of h) = [CallTransmit 0 false (Some (demo_wire, Some 5)); CallHandleTimeout 0 5; CallTransmit 0 false None].
+Proof.
+  destruct (fdl_new demo4_params) as [f0| |] eqn:E0;
+    [|exfalso; assert (X : is_ok (fdl_new demo4_params) = true) by (vm_compute; reflexivity); rewrite E0 in X; discriminate X
+     |exfalso; assert (X : is_ok (fdl_new demo4_params) = true) by (vm_compute; reflexivity); rewrite E0 in X; discriminate X].
+  assert (X : match fdl_new demo4_params with
+              | Ok f0 => match run nat demo_ops f0 [0%nat] demo4_events with
+                         | Ok (_, _, h) => Some (firstn 2 (visits_of h), firstn 3 (calls_of h))
+                         | _ => None
+                         end
+              | _ => None
+              end =
+              Some ([mkSv 0 99001 1689375 [(105001, false); (117001, false)] (Some 117001);
+                     mkSv 99001 117001 1788376 [(123001, false)] (Some 123001)],
+                    [CallTransmit 0 false (Some (demo_wire, Some 5)); CallHandleTimeout 0 5; CallTransmit 0 false None]))
+    by (vm_compute; reflexivity).
+  rewrite E0 in X. destruct (run nat demo_ops f0 [0%nat] demo4_events) as [[[f apps] h]| |] eqn:Er; try discriminate X.
+  injection X as X1 X2. exists f0, f, apps, h. split; [reflexivity|]. split; [vm_compute; repeat split|].
+  split; [exact Er|]. split; assumption.
+Qed.
